@@ -28,6 +28,9 @@ def dec(x):
             return complex(v[0], v[1])
         if k == 'set':
             return set(v)
+        if k == 'sysexdata':
+            import mido
+            return type(mido.Message('sysex').data)(dec(i) for i in v)
         raise KeyError(k)
     if isinstance(x, list):
         return [dec(i) for i in x]
@@ -38,7 +41,7 @@ def items_of(x):
     """The list of items a (tagged) sequence value would produce, or None when it is not iterable material."""
     if isinstance(x, dict) and '__t__' in x:
         k, v = x['__t__'], x['v']
-        if k in ('tuple', 'gen'):
+        if k in ('tuple', 'gen', 'sysexdata'):
             return [dec(i) for i in v]
         if k in ('bytes', 'bytearray'):
             return list(v)
